@@ -16,6 +16,15 @@ type parser struct {
 	pos  int
 }
 
+// span of the tokens [from, p.pos)
+func (p *parser) span(from int) *gen.Span {
+	if p.pos <= from || p.pos > len(p.toks) {
+		return nil
+	}
+	a, b := p.toks[from], p.toks[p.pos-1]
+	return &gen.Span{SL: a.Line, SC: a.Col, EL: b.Line, EC: b.Col + lex.RuneLen(b.Text)}
+}
+
 func (p *parser) peek() lex.Kind {
 	if p.pos < len(p.toks) {
 		return p.toks[p.pos].Kind
@@ -37,25 +46,26 @@ func (p *parser) primary() (*gen.Expr, bool) {
 		return nil, false
 	}
 	t := p.toks[p.pos]
+	from := p.pos
 	switch t.Kind {
 	case lex.VARNAME:
 		p.pos++
-		return &gen.Expr{Kind: gen.EVar, Text: t.Text[1:]}, true
+		return &gen.Expr{Kind: gen.EVar, Text: t.Text[1:], Span: p.span(from)}, true
 	case lex.ASSET:
 		p.pos++
-		return &gen.Expr{Kind: gen.EAsset, Text: t.Text}, true
+		return &gen.Expr{Kind: gen.EAsset, Text: t.Text, Span: p.span(from)}, true
 	case lex.STRING:
 		p.pos++
-		return &gen.Expr{Kind: gen.EStr, Text: t.Text[1 : len(t.Text)-1]}, true
+		return &gen.Expr{Kind: gen.EStr, Text: t.Text[1 : len(t.Text)-1], Span: p.span(from)}, true
 	case lex.ACCOUNT:
 		p.pos++
-		return &gen.Expr{Kind: gen.EAcct, Text: t.Text[1:]}, true
+		return &gen.Expr{Kind: gen.EAcct, Text: t.Text[1:], Span: p.span(from)}, true
 	case lex.NUMBER:
 		p.pos++
-		return &gen.Expr{Kind: gen.ENum, Text: t.Text}, true
+		return &gen.Expr{Kind: gen.ENum, Text: t.Text, Span: p.span(from)}, true
 	case lex.RATIO, lex.PERCENT:
 		p.pos++
-		return &gen.Expr{Kind: gen.EPortion, Text: t.Text}, true
+		return &gen.Expr{Kind: gen.EPortion, Text: t.Text, Span: p.span(from)}, true
 	case lex.LBRACKET:
 		save := p.pos
 		p.pos++
@@ -64,7 +74,7 @@ func (p *parser) primary() (*gen.Expr, bool) {
 			n, ok2 := p.valueExpr()
 			if ok2 {
 				if _, ok3 := p.accept(lex.RBRACKET); ok3 {
-					return &gen.Expr{Kind: gen.EMon, L: a, R: n}, true
+					return &gen.Expr{Kind: gen.EMon, L: a, R: n, Span: p.span(from)}, true
 				}
 			}
 		}
@@ -75,6 +85,7 @@ func (p *parser) primary() (*gen.Expr, bool) {
 }
 
 func (p *parser) valueExpr() (*gen.Expr, bool) {
+	from := p.pos
 	l, ok := p.primary()
 	if !ok {
 		return nil, false
@@ -94,7 +105,7 @@ func (p *parser) valueExpr() (*gen.Expr, bool) {
 			p.pos = save
 			return l, true
 		}
-		l = &gen.Expr{Kind: gen.EInfix, Op: op, L: l, R: r}
+		l = &gen.Expr{Kind: gen.EInfix, Op: op, L: l, R: r, Span: p.span(from)}
 	}
 }
 
@@ -112,6 +123,9 @@ func (p *parser) call() (*gen.Call, bool) {
 		return nil, false
 	}
 	c := &gen.Call{Fn: name.Text}
+	p.pos = save + 1
+	c.NameSpan = p.span(save)
+	p.pos = save + 2
 	if a, ok := p.valueExpr(); ok {
 		c.Args = append(c.Args, a)
 		for {
@@ -131,21 +145,23 @@ func (p *parser) call() (*gen.Call, bool) {
 		p.pos = save
 		return nil, false
 	}
+	c.Span = p.span(save)
 	return c, true
 }
 
 func (p *parser) allotment() (gen.Allot, bool) {
+	from := p.pos
 	if t, ok := p.accept(lex.RATIO); ok {
-		return gen.Allot{Kind: gen.ALit, Text: t.Text}, true
+		return gen.Allot{Kind: gen.ALit, Text: t.Text, Span: p.span(from)}, true
 	}
 	if t, ok := p.accept(lex.PERCENT); ok {
-		return gen.Allot{Kind: gen.ALit, Text: t.Text}, true
+		return gen.Allot{Kind: gen.ALit, Text: t.Text, Span: p.span(from)}, true
 	}
 	if t, ok := p.accept(lex.VARNAME); ok {
-		return gen.Allot{Kind: gen.AVar, Text: t.Text[1:]}, true
+		return gen.Allot{Kind: gen.AVar, Text: t.Text[1:], Span: p.span(from)}, true
 	}
 	if _, ok := p.accept(lex.REMAINING); ok {
-		return gen.Allot{Kind: gen.ARemaining}, true
+		return gen.Allot{Kind: gen.ARemaining, Span: p.span(from)}, true
 	}
 	return gen.Allot{}, false
 }
@@ -158,20 +174,20 @@ func (p *parser) source() (*gen.Src, bool) {
 		if _, ok := p.accept(lex.ALLOWING); ok {
 			if _, ok := p.accept(lex.UNBOUNDED); ok {
 				if _, ok := p.accept(lex.OVERDRAFT); ok {
-					return &gen.Src{Kind: gen.SOver, Addr: e}, true
+					return &gen.Src{Kind: gen.SOver, Addr: e, Span: p.span(save)}, true
 				}
 			} else if _, ok := p.accept(lex.OVERDRAFT); ok {
 				if _, ok := p.accept(lex.UP); ok {
 					if _, ok := p.accept(lex.TO); ok {
 						if b, ok := p.valueExpr(); ok {
-							return &gen.Src{Kind: gen.SOver, Addr: e, Bound: b}, true
+							return &gen.Src{Kind: gen.SOver, Addr: e, Bound: b, Span: p.span(save)}, true
 						}
 					}
 				}
 			}
 			p.pos = s2
 		}
-		return &gen.Src{Kind: gen.SAcct, Addr: e}, true
+		return &gen.Src{Kind: gen.SAcct, Addr: e, Span: e.Span}, true
 	}
 	p.pos = save
 	if _, ok := p.accept(lex.LBRACE); ok {
@@ -192,10 +208,11 @@ func (p *parser) source() (*gen.Src, bool) {
 				p.pos = s3
 				break
 			}
-			s.Items = append(s.Items, gen.SrcItem{Portion: a, From: from})
+			s.Items = append(s.Items, gen.SrcItem{Portion: a, From: from, Span: p.span(s3)})
 		}
 		if len(s.Items) > 0 {
 			if _, ok := p.accept(lex.RBRACE); ok {
+				s.Span = p.span(save)
 				return s, true
 			}
 		}
@@ -210,6 +227,7 @@ func (p *parser) source() (*gen.Src, bool) {
 			in.Subs = append(in.Subs, sub)
 		}
 		if _, ok := p.accept(lex.RBRACE); ok {
+			in.Span = p.span(save)
 			return in, true
 		}
 		p.pos = save
@@ -219,7 +237,7 @@ func (p *parser) source() (*gen.Src, bool) {
 		if c, ok := p.valueExpr(); ok {
 			if _, ok := p.accept(lex.FROM); ok {
 				if from, ok := p.source(); ok {
-					return &gen.Src{Kind: gen.SCapped, Cap: c, From: from}, true
+					return &gen.Src{Kind: gen.SCapped, Cap: c, From: from, Span: p.span(save)}, true
 				}
 			}
 		}
@@ -232,7 +250,7 @@ func (p *parser) source() (*gen.Src, bool) {
 func (p *parser) kod() (gen.KOD, bool) {
 	save := p.pos
 	if _, ok := p.accept(lex.KEPT); ok {
-		return gen.KOD{Kept: true}, true
+		return gen.KOD{Kept: true, Span: p.span(save)}, true
 	}
 	if _, ok := p.accept(lex.TO); ok {
 		if d, ok := p.destination(); ok {
@@ -246,7 +264,7 @@ func (p *parser) kod() (gen.KOD, bool) {
 func (p *parser) destination() (*gen.Dst, bool) {
 	save := p.pos
 	if e, ok := p.valueExpr(); ok {
-		return &gen.Dst{Kind: gen.DAcct, Addr: e}, true
+		return &gen.Dst{Kind: gen.DAcct, Addr: e, Span: e.Span}, true
 	}
 	p.pos = save
 	if _, ok := p.accept(lex.LBRACE); !ok {
@@ -265,10 +283,11 @@ func (p *parser) destination() (*gen.Dst, bool) {
 			p.pos = s3
 			break
 		}
-		d.Items = append(d.Items, gen.DstItem{Portion: a, To: k})
+		d.Items = append(d.Items, gen.DstItem{Portion: a, To: k, Span: p.span(s3)})
 	}
 	if len(d.Items) > 0 {
 		if _, ok := p.accept(lex.RBRACE); ok {
+			d.Span = p.span(save)
 			return d, true
 		}
 	}
@@ -289,12 +308,13 @@ func (p *parser) destination() (*gen.Dst, bool) {
 			p.pos = s3
 			break
 		}
-		in.Clauses = append(in.Clauses, gen.DstClause{Cap: c, To: k})
+		in.Clauses = append(in.Clauses, gen.DstClause{Cap: c, To: k, Span: p.span(s3)})
 	}
 	if _, ok := p.accept(lex.REMAINING); ok {
 		if k, ok := p.kod(); ok {
 			if _, ok := p.accept(lex.RBRACE); ok {
 				in.Remaining = &k
+				in.Span = p.span(save)
 				return in, true
 			}
 		}
@@ -307,6 +327,7 @@ func (p *parser) sent(st *gen.Stmt) bool {
 	save := p.pos
 	if e, ok := p.valueExpr(); ok {
 		st.Sent = e
+		st.SentSpan = p.span(save)
 		return true
 	}
 	p.pos = save
@@ -316,6 +337,7 @@ func (p *parser) sent(st *gen.Stmt) bool {
 				if _, ok := p.accept(lex.RBRACKET); ok {
 					st.All = true
 					st.Sent = e
+					st.SentSpan = p.span(save)
 					return true
 				}
 			}
@@ -340,6 +362,7 @@ func (p *parser) statement() (*gen.Stmt, bool) {
 									if d, ok := p.destination(); ok {
 										st.Dst = d
 										if _, ok := p.accept(lex.RPARENS); ok {
+											st.Span = p.span(save)
 											return st, true
 										}
 									}
@@ -359,6 +382,7 @@ func (p *parser) statement() (*gen.Stmt, bool) {
 			if _, ok := p.accept(lex.FROM); ok {
 				if e, ok := p.valueExpr(); ok {
 					st.SaveFrom = e
+					st.Span = p.span(save)
 					return st, true
 				}
 			}
@@ -367,7 +391,7 @@ func (p *parser) statement() (*gen.Stmt, bool) {
 		return nil, false
 	}
 	if c, ok := p.call(); ok {
-		return &gen.Stmt{Kind: gen.StCall, Call: c}, true
+		return &gen.Stmt{Kind: gen.StCall, Call: c, Span: c.Span}, true
 	}
 	return nil, false
 }
@@ -391,6 +415,10 @@ func (p *parser) program() (*gen.Script, bool) {
 				break
 			}
 			d := gen.VarDecl{Type: ty.Text, Name: nm.Text[1:]}
+			p.pos = save + 1
+			d.TypeSpan = p.span(save)
+			p.pos = save + 2
+			d.NameSpan = p.span(save + 1)
 			s2 := p.pos
 			if _, ok := p.accept(lex.EQ); ok {
 				c, ok := p.call()
@@ -400,6 +428,7 @@ func (p *parser) program() (*gen.Script, bool) {
 				}
 				d.Origin = c
 			}
+			d.Span = p.span(save)
 			s.Vars = append(s.Vars, d)
 		}
 		if _, ok := p.accept(lex.RBRACE); !ok {
